@@ -79,6 +79,7 @@ class OpResult(dict):
 
 def parse_num(x):
     if x.startswith('nan'): return float('nan')
+    if x == '-0': return -0.0
     try: return int(x)
     except ValueError: return float(x)
 
